@@ -89,6 +89,26 @@ Definition chk_public
   | Some r => res_beq (wdict_close tolx tols) (res_map final_sort r) e
   end.
 
+(* the same through real gate bases (inexact binary64): near-ties in the sort key may legitimately be ordered
+   differently by rounded and by exact weights, so the result is compared as a SET of entries (keys are distinct);
+   the order is compared exactly on the dyadic public stream above *)
+Definition entry_in (tolx tols : Q) (d : wdict) (e : key * (Q * wtype)) : bool :=
+  match dget d (fst e) with
+  | Some v => entry_close tolx tols (fst e, v) e
+  | None => false
+  end.
+
+Definition chk_public_set
+  (c : list (list Q) * list (list nat) * num * list nat * (Q * Q * Q) * res wdict) : bool :=
+  let '(probs, perms, N, tape, tols3, e) := c in
+  let '(tolx, tols, tolc) := tols3 in
+  match gen_weights probs perms N tape, e with
+  | Some (Ok r), Ok er => Nat.eqb (length r) (length er) && forallb (entry_in tolx tols (final_sort r)) er
+  | Some Refused, Refused => true
+  | Some Crashed, Crashed => true
+  | _, _ => false
+  end.
+
 (* expected weights obtained by enumerating EVERY answer sequence of the oracle on the implementation *)
 Definition chk_expected (c : list (list Q) * list (list nat) * num * Q * list (key * Q)) : bool :=
   let '(probs, perms, N, tol, ews) := c in
